@@ -541,13 +541,72 @@ Proof.
     + unfold val_be. now rewrite Hval, rev_length.
 Qed.
 
-(* the MCX-ladder fallback as written does not increment: 3 -> 0 on three wires *)
-Lemma incrementer_fallback_wrong :
-  exists s s', run (incrementer_fallback [0; 1; 2]%nat) s = Some s' /\
-               val_be s [0; 1; 2]%nat = 3 /\ val_be s' [0; 1; 2]%nat = 0.
+(* ------------------------------------------------------------------ Incrementer fallback (MCX ladder) *)
+Lemma ctrl_ok_ones_ext : forall l s t, (forall w, In w l -> s w = t w) -> ctrl_ok s (ones l) = ctrl_ok t (ones l).
 Proof.
-  exists (fun i => match i with 0%nat => false | _ => true end). eexists. split; [reflexivity|].
-  split; vm_compute; reflexivity.
+  induction l as [|a l IH]; intros s t H; cbn [ones map ctrl_ok forallb fst snd]; [reflexivity|].
+  rewrite (H a (or_introl eq_refl)). f_equal. apply IH. intros; apply H; now right.
+Qed.
+Lemma ctrl_ok_ones_snoc : forall l a s, ctrl_ok s (ones (l ++ [a])) = ctrl_ok s (ones l) && s a.
+Proof.
+  induction l as [|b l IH]; intros a s; cbn [app ones map ctrl_ok forallb fst snd].
+  - now rewrite eqb_t, andb_true_r.
+  - unfold ctrl_ok, ones in IH. rewrite IH. now rewrite andb_assoc.
+Qed.
+
+Lemma mcx_ladder_spec : forall rest pref s,
+  NoDup rest -> (forall w, In w pref -> ~ In w rest) ->
+  exists s', run (mcx_ladder pref rest) s = Some s' /\
+    (forall i, ~ In i rest -> s' i = s i) /\
+    val_le s' rest = (val_le s rest + b2z (ctrl_ok s (ones pref))) mod 2 ^ Z.of_nat (length rest).
+Proof.
+  induction rest as [|t rest' IH]; intros pref s Hnd Hd.
+  - exists s. cbn. repeat split; auto. now rewrite Z.mod_1_r.
+  - inversion Hnd as [|? ? Ht Hnd']; subst.
+    destruct (IH (pref ++ [t]) s Hnd') as (s2 & Hrun & Hfr & Hval).
+    { intros w Hw Hin. apply in_app_or in Hw. destruct Hw as [Hw|[<-|[]]]; [apply (Hd w Hw); now right | contradiction]. }
+    assert (H2t : s2 t = s t) by (apply Hfr; assumption).
+    assert (Hc2 : ctrl_ok s2 (ones pref) = ctrl_ok s (ones pref)).
+    { apply ctrl_ok_ones_ext. intros w Hw. apply Hfr. intro Hin. apply (Hd w Hw). now right. }
+    exists (upd s2 t (xorb (s2 t) (ctrl_ok s2 (ones pref)))). split; [|split].
+    + cbn [mcx_ladder]. rewrite run_app, Hrun. reflexivity.
+    + intros i Hi. rewrite upd_other by (intro; subst; apply Hi; now left).
+      apply Hfr. intro; apply Hi; now right.
+    + cbn [val_le length]. rewrite upd_same, H2t, Hc2.
+      assert (Hv : val_le (upd s2 t (xorb (s t) (ctrl_ok s (ones pref)))) rest' = val_le s2 rest').
+      { apply val_le_ext. intros w Hw. rewrite upd_other; [reflexivity | intro; subst; contradiction]. }
+      rewrite Hv, Hval, ctrl_ok_ones_snoc.
+      rewrite Nat2Z.inj_succ, Z.pow_succ_r by lia.
+      rewrite bit_mod by (try apply pow2_pos; apply b2z_range).
+      f_equal. pose proof (half_adder (s t) (ctrl_ok s (ones pref))). lia.
+Qed.
+
+Lemma incrementer_fallback_spec : forall wires s, NoDup wires ->
+  exists s', run (incrementer_fallback wires) s = Some s' /\
+    (forall i, ~ In i wires -> s' i = s i) /\
+    val_be s' wires = (val_be s wires + 1) mod 2 ^ Z.of_nat (length wires).
+Proof.
+  intros wires s Hnd. unfold incrementer_fallback, val_be.
+  rewrite <- (rev_length wires).
+  assert (Hin : forall i, ~ In i wires -> ~ In i (rev wires)) by (intros i Hi Hr; apply Hi; now apply in_rev).
+  apply NoDup_rev in Hnd. revert Hnd Hin. generalize (rev wires) as r. intros r Hnd Hin.
+  destruct r as [|r0 rs].
+  - exists s. cbn. repeat split; auto.
+  - inversion Hnd as [|? ? Hr0 Hnd']; subst.
+    destruct (mcx_ladder_spec rs [r0] s Hnd') as (s2 & Hrun & Hfr & Hval).
+    { intros w [<-|[]]. assumption. }
+    assert (H2 : s2 r0 = s r0) by (apply Hfr; assumption).
+    exists (upd s2 r0 (xorb (s2 r0) true)). split; [|split].
+    + unfold inc_fallback_le. rewrite run_app, Hrun. reflexivity.
+    + intros i Hi. apply Hin in Hi. rewrite upd_other by (intro; subst; apply Hi; now left).
+      apply Hfr. intro; apply Hi; now right.
+    + cbn [val_le length]. rewrite upd_same, H2.
+      assert (Hv : val_le (upd s2 r0 (xorb (s r0) true)) rs = val_le s2 rs).
+      { apply val_le_ext. intros w Hw. rewrite upd_other; [reflexivity | intro; subst; contradiction]. }
+      rewrite Hv, Hval. cbn [ones map ctrl_ok forallb fst snd]. rewrite eqb_t, andb_true_r.
+      rewrite Nat2Z.inj_succ, Z.pow_succ_r by lia.
+      rewrite bit_mod by (try apply pow2_pos; apply b2z_range).
+      f_equal. destruct (s r0); cbn [b2z xorb]; lia.
 Qed.
 
 (* IntegerComparator: canonical layout (control wires 0..n-1, target n), every n <= 4, every value 0..2^n+1,
